@@ -160,9 +160,7 @@ def c12 (kind : String) (f : Fields) : String :=
   | "xframe" =>
     match f.hex "bytes", f.nat "limit" with
     | some b, some lim =>
-      let a := showRead (Raw.unpack reg lim 0 b)
-      let c := showRead (Raw.unpack reg lim 1048576 b)
-      if a == c then a else a ++ " || " ++ c
+      showRead (Raw.unpack reg lim b)
     | _, _ => "bad-case"
   | "xframepack" =>
     match msgOfFields f, f.nat "limit" with
